@@ -23,6 +23,7 @@ def run_shard(ctx):
     bks = c03.backends(ctx)
     strat = qmgen.history(qmgen.configs(bks, pools=True, bounce=True), WEIGHTS, fail_heavy=True, bodies=True)
     qmgen.drive_histories(ctx, OWN, strat, ctx.n(4000, 40000), nontrivial)
+    qmgen.drive_histories(ctx, OWN, qmgen.exhausted_dup_history(), ctx.n(200, 400), nontrivial, salt=18)
     # the real SMTP / LMTP relays in front of a scripted peer: every recipient rejected, each with its own 5xx reply
     from vf import relaykinds
     k = 0
